@@ -1,4 +1,5 @@
 import HidVerif.Proofs.CoreStop
+import HidVerif.Proofs.CoreCall
 /-!
 # Core compiler proofs: statement lists (`cS_ok`) by induction on the fuel of `exec`
 
@@ -21,10 +22,10 @@ theorem cS_ok (lib : Placed p B) (fok : FnsOK p ck B dA fa fns) :
       (s : S) (Γ : Gam) (env : Env) (pc o : Nat) (m : Mem) (env' : Env) (tr : List Ev) (res : Res),
       PlacedAt p pc (cS (cxOf p ck B dA) fa lp Γ pc o s) →
       pc + (cS (cxOf p ck B dA) fa lp Γ pc o s).length ≤ B →
-      SInv p md Γ env m F D o ra → Disj p.w Γ → wfS lp.vd (Γ.map Prod.fst) s = true →
+      SInv p md Γ env m F D o ra → Disj p.w Γ → wfS fns lp.vd (Γ.map Prod.fst) s = true →
       pkS p.w o s ≤ D → p.w ≤ o →
       exec (256 ^ p.w) (8 * p.w) fns p.w fuel D o env s = some (env', tr, res) → FaultOK ck fns p.w res →
-      Safe p B dA ra lp md sb Γ env' F D o (pc + (cS (cxOf p ck B dA) fa lp Γ pc o s).length) m res s →
+      Safe p B dA ra lp md sb fns Γ env' F D o (pc + (cS (cxOf p ck B dA) fa lp Γ pc o s).length) m res s →
       Concl p B ra lp md Γ env' F D o pc (pc + (cS (cxOf p ck B dA) fa lp Γ pc o s).length) m tr res := by
   have hw := lib.hw
   have h64 := mul_w_lt_pow p.w hw
@@ -47,246 +48,8 @@ theorem cS_ok (lib : Placed p B) (fok : FnsOK p ck B dA fa fns) :
         Reach (sphinx p) ⟨pc0, m0⟩ t ⟨B + off_stack_overflow, m'⟩ →
         Concl p B ra lp md Γ env0 F D o pc0 e0 m0 t .ovf :=
       fun _ _ _ _ m' _ r => ⟨fun h => absurd h (by decide), fun _ => ⟨⟨_, m'⟩, r, by simp [Post]⟩⟩
-    -- a call `g(args)` at the start of the list: the callee's body by the induction hypothesis
-    have hcall : ∀ (g : String) (args : List E) (trc : List Ev) (flag : Option Res) (rv : Option Nat),
-        PlacedAt p pc (cCall (cxOf p ck B dA) fa Γ pc o g args) →
-        pc + (cCall (cxOf p ck B dA) fa Γ pc o g args).length ≤ B →
-        args.all (boundE (Γ.map Prod.fst)) = true → pkCall p.w o args ≤ D →
-        callWith (256 ^ p.w) (8 * p.w) fns p.w (exec (256 ^ p.w) (8 * p.w) fns p.w f) D o env g args
-          = some (trc, flag, rv) →
-        (∀ r, flag = some r → FaultOK ck fns p.w r) →
-        (flag = some .div0 → ∃ m', Reach (sphinx p) ⟨pc, m⟩ trc ⟨B + off_division_by_zero, m'⟩) ∧
-        (flag = some .ovf → ∃ m', Reach (sphinx p) ⟨pc, m⟩ trc ⟨B + off_stack_overflow, m'⟩) ∧
-        (flag = none → ∃ m', Reach (sphinx p) ⟨pc, m⟩ trc
-            ⟨pc + (cCall (cxOf p ck B dA) fa Γ pc o g args).length, m'⟩ ∧ Keep p.w m m' (F - o) ∧
-          ∀ v, rv = some v → m'.readLE (F - (o + p.w)) p.w = v) := by
-      intro g args trc flag rv hplc hBc hba hpkc hcw hfl
-      have fr := hinv.fr
-      have hpkA : pkArgs p.w (o + p.w) args ≤ D := by unfold pkCall at hpkc; omega
-      have hoW : o + p.w ≤ D := by unfold pkCall at hpkc; omega
-      generalize hpush : cArgs (cxOf p ck B dA) Γ (pc + 1) (o + p.w) args = push at *
-      have hcode : cCall (cxOf p ck B dA) fa Γ pc o g args =
-          [stSlot (cxOf p ck B dA) (o + p.w) (.imm (pc + 1 + push.length + 3))] ++ push ++
-            [.alu .add p.w (.st p.w) ((cxOf p ck B dA).negImm o), .j (.imm (faddr fa g)), .halt,
-             .alu .add p.w (.st p.w) (.imm (wrapI (256 ^ p.w) o))] := by
-        simp only [cCall, hpush]; rfl
-      rw [hcode] at hplc hBc ⊢
-      have hlen : ([stSlot (cxOf p ck B dA) (o + p.w) (.imm (pc + 1 + push.length + 3))] ++ push ++
-            [Instr.alu .add p.w (.st p.w) ((cxOf p ck B dA).negImm o), .j (.imm (faddr fa g)), .halt,
-             .alu .add p.w (.st p.w) (.imm (wrapI (256 ^ p.w) o))]).length = 1 + push.length + 4 := by
-        simp only [List.length_append, List.length_cons, List.length_nil]
-      rw [hlen] at hBc ⊢
-      obtain ⟨hpl12, hpl3⟩ := hplc.append
-      obtain ⟨hpl1, hpl2⟩ := hpl12.append
-      simp only [List.length_append, List.length_cons, List.length_nil, Nat.zero_add] at hpl2 hpl3
-      -- 0: the return address
-      have hend : pc + 1 + push.length + 3 < 256 ^ p.w := by simp [stdlibLength] at hBM; omega
-      have s0 := st_reach (ck := ck) (dA := dA) (B := B) hw fr (o + p.w) (.imm (pc + 1 + push.length + 3)) (pc + 1 + push.length + 3) hpl1
-        (by rw [ev_imm]; congr 1; exact Nat.mod_eq_of_lt (by unfold Prog.M; exact hend)) (by omega) (by omega)
-      have k0 : Keep p.w m (m.writeLE (F - (o + p.w)) p.w (pc + 1 + push.length + 3)) (F - o) :=
-        Keep.write _ _ _ _ _ _ (by omega) (by omega)
-      generalize hm1 : m.writeLE (F - (o + p.w)) p.w (pc + 1 + push.length + 3) = m1 at *
-      have fr1 := fr.keep k0
-      have hra1 : m1.readLE (F - (o + p.w)) p.w = pc + 1 + push.length + 3 := by
-        rw [← hm1, Mem.readLE_writeLE_same _ _ _ _ (by omega)]; exact Nat.mod_eq_of_lt hend
-      -- the arguments
-      have hp := cArgs_ok (ck := ck) (dA := dA) lib Γ env F D args (pc + 1) (o + p.w) m1 (by rw [hpush]; exact hpl2)
-        (by rw [hpush]; omega) fr1 (hinv.vars.keep k0 (Nat.le_refl _) (by omega)) hba hpkA (by omega)
-      rw [hpush] at hp
-      unfold callWith at hcw
-      cases hev : evalArgs (256 ^ p.w) (8 * p.w) env args with
-      | none =>
-        simp only [hev, Option.some.injEq, Prod.mk.injEq] at hcw
-        obtain ⟨rfl, rfl, rfl⟩ := hcw
-        obtain ⟨m', rd⟩ := hp.2 hev (hfl .div0 rfl)
-        exact ⟨fun _ => ⟨m', by simpa [evl] using s0.trans rd⟩, fun h => absurd h (by simp), fun h => absurd h (by simp)⟩
-      | some vs =>
-        simp only [hev] at hcw
-        cases hfind : fns.find? (fun fd => fd.name == g) with
-        | none => simp [hfind] at hcw
-        | some fd =>
-          simp only [hfind] at hcw
-          have hmem : fd ∈ fns := List.mem_of_find?_eq_some hfind
-          have hname : fd.name = g := by simpa using List.find?_some hfind
-          subst hname
-          by_cases hcond : vs.length ≠ fd.params.length ∨ D < o
-          · simp [hcond] at hcw
-          · rw [if_neg hcond] at hcw
-            have hvl : vs.length = fd.params.length := by omega
-            obtain ⟨m2, r2, k2, hsl2⟩ := hp.1 vs hev
-            have fr2 := fr1.keep k2
-            have hra2 : m2.readLE (F - (o + p.w)) p.w = pc + 1 + push.length + 3 := by
-              rw [k2.read _ _ (Nat.le_refl _)]; exact hra1
-            have c0 := hpl3 0 (by simp); have c1 := hpl3 1 (by simp); have c2 := hpl3 2 (by simp); have c3 := hpl3 3 (by simp)
-            simp only [List.getElem_cons_succ, List.getElem_cons_zero, Nat.add_zero] at c0 c1 c2 c3
-            -- fp := fp - o
-            have efp : evalArg p ⟨pc + (1 + push.length), m2⟩ (.st p.w) = some F := by
-              rw [ev_st (by unfold Prog.M; omega) (by have := fr2.top; omega), fr2.fp]
-            have e1 : (F + (256 ^ p.w - o) % p.M) % p.M = F - o := by
-              unfold Prog.M; exact add_neg_mod (by omega) (by omega) hFM
-            have s3 := step_alu (m := m2) c0 efp (ev_negImm ck B o (by omega) (by omega)) alu_add
-              (by unfold Prog.M; omega) (by have := fr2.top; omega)
-            rw [e1] at s3
-            generalize hm3 : m2.writeLE p.w p.w (F - o) = m3 at *
-            have hsz3 : m3.size = m2.size := by rw [← hm3]; simp
-            have hfp3 : m3.readLE p.w p.w = F - o := by
-              rw [← hm3, Mem.readLE_writeLE_same _ _ _ _ (by have := fr2.top; omega)]; exact Nat.mod_eq_of_lt (by omega)
-            have hrd3 : ∀ x, 2 * p.w ≤ x → m3.rd x = m2.rd x := fun x hx => by
-              rw [← hm3]; exact Mem.rd_writeLE_other _ _ _ _ _ (by omega)
-            have hap3 : m3.readLE 0 p.w = 5 * p.w := by
-              rw [← hm3, Mem.readLE_writeLE_disj _ _ _ _ _ _ (by omega)]; exact fr2.ap
-            -- the jump into the callee
-            have hplf := fok.placed fd hmem
-            have hBf := fok.inB fd hmem
-            have hfaM : faddr fa fd.name < 256 ^ p.w := by simp [stdlibLength] at hBM; omega
-            have s4 := step_j (m := m3) c1 (ev_imm (faddr fa fd.name))
-            rw [show faddr fa fd.name % p.M = faddr fa fd.name from Nat.mod_eq_of_lt (by unfold Prog.M; exact hfaM)] at s4
-            have s5 := step_halt (m := m3) c2
-            have jcall := Reach.jump_taken (sys := sphinx p) s4 s5
-            -- the callee's frame
-            have fr3 : Fr p m3 (F - o) (D - o) :=
-              ⟨hfp3, hap3, by rw [hsz3]; have := fr2.top; omega, by omega, by omega⟩
-            by_cases hp : D - o < pkS p.w (entryOff p.w fd.params) fd.body
-            · rw [if_pos hp] at hcw
-              simp only [Option.some.injEq, Prod.mk.injEq] at hcw
-              obtain ⟨rfl, rfl, rfl⟩ := hcw
-              obtain ⟨hckt, hpkM⟩ := hfl .ovf rfl
-              obtain ⟨m', rso⟩ := (prologue_ok (ck := ck) (dA := dA) lib fa (faddr fa fd.name) fd.params fd.body m3 (F - o) (D - o) fr3
-                hplf hBf (hpkM fd hmem)).2 hckt (by have := fr3.room; omega)
-              refine ⟨fun h => absurd h (by simp), fun _ => ⟨m', ?_⟩, fun h => absurd h (by simp)⟩
-              have r3 := Reach.of_next (sys := sphinx p) s3
-              have r2' : Reach (sphinx p) ⟨pc + 1, m1⟩ [] ⟨pc + (1 + push.length), m2⟩ := by simpa [Nat.add_assoc] using r2
-              have := s0.trans (r2'.trans (r3.trans (jcall.trans rso)))
-              simpa [evl] using this
-            rw [if_neg hp] at hcw
-            have hfit : pkS p.w (entryOff p.w fd.params) fd.body ≤ D - o := by omega
-            have hpro := (prologue_ok (ck := ck) (dA := dA) lib fa (faddr fa fd.name) fd.params fd.body m3 (F - o) (D - o) fr3
-              hplf hBf (by omega)).1 (by have := fr3.room; omega)
-            have hsl3 : SlotsAt p.w m3 (F - o) (2 * p.w) vs := by
-              apply SlotsAt_shift
-              refine SlotsAt_congr p.w m2 m3 F (2 * p.w) hrd3 vs (o + 2 * p.w) ?_ (by rw [show o + 2 * p.w = o + p.w + p.w by omega]; exact hsl2)
-              have := evalArgs_length hev
-              have hpa : o + p.w + args.length * p.w ≤ pkArgs p.w (o + p.w) args := pkArgs_ge p.w args (o + p.w)
-              rw [← this] at hpa
-              omega
-            have heo : 2 * p.w + fd.params.length * p.w - p.w = entryOff p.w fd.params := by
-              unfold entryOff; rw [Nat.add_mul, Nat.one_mul]; omega
-            have hvars3 := vars_slots p.w m3 (F - o) fd.params vs (2 * p.w) (fok.nodup fd hmem) hvl (Nat.le_refl _) hsl3
-            rw [heo] at hvars3
-            have hra3 : m3.readLE (F - o - p.w) p.w = pc + 1 + push.length + 3 := by
-              rw [show F - o - p.w = F - (o + p.w) by omega, ← hra2]
-              exact Mem.readLE_congr _ _ _ _ (fun x h1 _ => hrd3 x (by omega))
-            have hinv3 : SInv p .plain (paramGam p.w (2 * p.w) fd.params) (bindEnv fd.params vs) m3 (F - o) (D - o)
-                (entryOff p.w fd.params) (pc + 1 + push.length + 3) := ⟨fr3, hvars3, hra3, fun _ _ e => by cases e⟩
-            have heW : p.w ≤ entryOff p.w fd.params := by unfold entryOff; rw [Nat.add_mul, Nat.one_mul]; omega
-            -- the body
-            have hsplit : funcCode (cxOf p ck B dA) fa (faddr fa fd.name) fd.params fd.body =
-                (if ck then
-                  [Instr.j (.imm (faddr fa fd.name + 5)), .alu .sub (cxOf p ck B dA).r1 (.st (cxOf p ck B dA).fp) (.st 0),
-                   .hcond .hgeu (.st (cxOf p ck B dA).r1) (.imm (pkS p.w (entryOff p.w fd.params) fd.body % (cxOf p ck B dA).M)),
-                   .j (.imm (B + off_stack_overflow)), .halt]
-                 else []) ++ cS (cxOf p ck B dA) fa ⟨0, 0, false⟩ (paramGam p.w (2 * p.w) fd.params) (faddr fa fd.name + prologueLen ck)
-                    (entryOff p.w fd.params) fd.body := rfl
-            have hpllen : (if ck then
-                  [Instr.j (.imm (faddr fa fd.name + 5)), .alu .sub (cxOf p ck B dA).r1 (.st (cxOf p ck B dA).fp) (.st 0),
-                   .hcond .hgeu (.st (cxOf p ck B dA).r1) (.imm (pkS p.w (entryOff p.w fd.params) fd.body % (cxOf p ck B dA).M)),
-                   .j (.imm (B + off_stack_overflow)), .halt]
-                 else []).length = prologueLen ck := by cases ck <;> rfl
-            rw [hsplit] at hplf hBf
-            obtain ⟨_, hplb⟩ := hplf.append
-            rw [hpllen] at hplb
-            rw [List.length_append, hpllen] at hBf
-            cases hexb : exec (256 ^ p.w) (8 * p.w) fns p.w f (D - o) (entryOff p.w fd.params) (bindEnv fd.params vs) fd.body with
-            | none => simp [hexb] at hcw
-            | some rb =>
-              obtain ⟨envb, trb, resb⟩ := rb
-              simp only [hexb] at hcw
-              have hbody := ih (F - o) (D - o) (pc + 1 + push.length + 3) hend ⟨0, 0, false⟩ ⟨by show 0 < _; omega, by show 0 < _; omega⟩ .plain false fd.body (paramGam p.w (2 * p.w) fd.params)
-                (bindEnv fd.params vs) (faddr fa fd.name + prologueLen ck) (entryOff p.w fd.params) m3 envb trb resb
-                hplb (by omega) hinv3 (disj_paramGam p.w fd.params (2 * p.w) (fok.nodup fd hmem))
-                (by rw [map_fst_paramGam]; exact fok.wf fd hmem) hfit heW hexb
-                (by cases resb <;> simp only [FaultOK] <;>
-                      first | trivial | (simp only [Option.some.injEq, Prod.mk.injEq] at hcw; exact hfl _ hcw.2.1.symm))
-                (Or.inl ⟨(by intro h; cases h), (by intro h; cases h), plain_noTry _ (fok.plain fd hmem), Or.inl HaltW.plain⟩)
-              have r03 : Reach (sphinx p) ⟨pc, m⟩ [] ⟨faddr fa fd.name + prologueLen ck, m3⟩ := by
-                have r3 := Reach.of_next (sys := sphinx p) s3
-                have r2' : Reach (sphinx p) ⟨pc + 1, m1⟩ [] ⟨pc + (1 + push.length), m2⟩ := by simpa [Nat.add_assoc] using r2
-                have := s0.trans (r2'.trans (r3.trans (jcall.trans hpro)))
-                simpa [evl] using this
-              -- after the return: fp := fp + o
-              have back : ∀ m4, Keep p.w m3 m4 (F - o) →
-                  Reach (sphinx p) ⟨pc + 1 + push.length + 3, m4⟩ [] ⟨pc + (1 + push.length + 4), m4.writeLE p.w p.w F⟩ ∧
-                  Keep p.w m (m4.writeLE p.w p.w F) (F - o) ∧
-                  (m4.writeLE p.w p.w F).readLE (F - (o + p.w)) p.w = m4.readLE (F - o - p.w) p.w := by
-                intro m4 k34
-                have hsz4 : m4.size = m3.size := k34.size
-                have hfp4 : m4.readLE p.w p.w = F - o := by rw [k34.fp]; exact hfp3
-                have e : pc + 1 + push.length + 3 = pc + (1 + push.length) + 1 + 1 + 1 := by omega
-                have efp4 : evalArg p ⟨pc + (1 + push.length) + 1 + 1 + 1, m4⟩ (.st p.w) = some (F - o) := by
-                  rw [ev_st (by unfold Prog.M; omega) (by rw [hsz4, hsz3]; have := fr2.top; omega), hfp4]
-                have eo : evalArg p ⟨pc + (1 + push.length) + 1 + 1 + 1, m4⟩ (.imm (wrapI (256 ^ p.w) o)) = some o := by
-                  rw [ev_imm, wrapI_nat (by omega)]; congr 1; exact Nat.mod_eq_of_lt (by unfold Prog.M; omega)
-                have s6 := step_alu (m := m4) c3 efp4 eo alu_add (by unfold Prog.M; omega) (by rw [hsz4, hsz3]; have := fr2.top; omega)
-                rw [show (F - o + o) % p.M = F from by unfold Prog.M; rw [Nat.sub_add_cancel (by omega)]; exact Nat.mod_eq_of_lt hFM] at s6
-                refine ⟨?_, ?_, ?_⟩
-                · rw [e]
-                  have r6 := Reach.of_next (sys := sphinx p) s6
-                  simpa [evl, Nat.add_assoc] using r6
-                · have k25 : Keep p.w m2 (m4.writeLE p.w p.w F) (F - o) := by
-                    refine ⟨by simp [hsz4, hsz3], ?_, ?_, fun x hx => ?_⟩
-                    · rw [Mem.readLE_writeLE_same _ _ _ _ (by rw [hsz4, hsz3]; have := fr2.top; omega), fr2.fp]
-                      exact Nat.mod_eq_of_lt hFM
-                    · rw [Mem.readLE_writeLE_disj _ _ _ _ _ _ (by omega), k34.ap, hap3, fr2.ap]
-                    · rw [Mem.rd_writeLE_other _ _ _ _ _ (by omega), k34.hi x hx, hrd3 x (by omega)]
-                  exact (k0.trans' (k2.mono (by omega))).trans' k25
-                · rw [Mem.readLE_writeLE_disj _ _ _ _ _ _ (by omega)]
-                  congr 1; omega
-              cases resb with
-              | norm => simp at hcw
-              | defeat => simp at hcw
-              | brk => simp at hcw
-              | cnt => simp at hcw
-              | div0 =>
-                simp only [Option.some.injEq, Prod.mk.injEq] at hcw
-                obtain ⟨rfl, rfl, rfl⟩ := hcw
-                obtain ⟨st', rb, hpost⟩ := hbody.2 (by simp)
-                obtain ⟨pc', m'⟩ := st'
-                simp only [Post] at hpost
-                subst hpost
-                exact ⟨fun _ => ⟨m', by simpa using r03.trans rb⟩, fun h => absurd h (by simp), fun h => absurd h (by simp)⟩
-              | ovf =>
-                simp only [Option.some.injEq, Prod.mk.injEq] at hcw
-                obtain ⟨rfl, rfl, rfl⟩ := hcw
-                obtain ⟨st', rb, hpost⟩ := hbody.2 (by simp)
-                obtain ⟨pc', m'⟩ := st'
-                simp only [Post] at hpost
-                subst hpost
-                exact ⟨fun h => absurd h (by simp), fun _ => ⟨m', by simpa using r03.trans rb⟩, fun h => absurd h (by simp)⟩
-              | returned =>
-                simp only [Option.some.injEq, Prod.mk.injEq] at hcw
-                obtain ⟨rfl, rfl, rfl⟩ := hcw
-                obtain ⟨st', rb, hpost⟩ := hbody.2 (by simp)
-                obtain ⟨pc', m4⟩ := st'
-                simp only [Post] at hpost
-                obtain ⟨hpc', k34⟩ := hpost
-                subst hpc'
-                obtain ⟨r6, k6, _⟩ := back m4 k34
-                refine ⟨fun h => absurd h (by simp), fun h => absurd h (by simp), fun _ => ⟨_, ?_, k6, fun v hv => absurd hv (by simp)⟩⟩
-                simpa using (r03.trans rb).trans r6
-              | retv v =>
-                simp only [Option.some.injEq, Prod.mk.injEq] at hcw
-                obtain ⟨rfl, rfl, rfl⟩ := hcw
-                obtain ⟨st', rb, hpost⟩ := hbody.2 (by simp)
-                obtain ⟨pc', m4⟩ := st'
-                simp only [Post] at hpost
-                obtain ⟨hpc', k34, hv4⟩ := hpost
-                subst hpc'
-                obtain ⟨r6, k6, h6⟩ := back m4 k34
-                refine ⟨fun h => absurd h (by simp), fun h => absurd h (by simp), fun _ => ⟨_, ?_, k6, fun v' hv' => ?_⟩⟩
-                · simpa using (r03.trans rb).trans r6
-                · simp only [Option.some.injEq] at hv'
-                  subst hv'
-                  rw [h6]; exact hv4
+    -- a call `g(args)` at the start of the list: the callee's body by the induction hypothesis (`call_ok`)
+    have hcall := call_ok lib fok f ih F D ra hra md Γ env pc o m hinv ho
     cases s with
     | nil =>
       simp only [exec, Option.some.injEq, Prod.mk.injEq] at hex
@@ -342,7 +105,7 @@ theorem cS_ok (lib : Placed p B) (fok : FnsOK p ck B dA fa fns) :
           | defeat =>
             simp only [Post] at hpost ⊢
             obtain ⟨a, v, h1, h2, h3, h4⟩ := hpost
-            exact ⟨a, v, h1, h2, decl_back hinv x h3 hxn, h4⟩
+            exact ⟨a, v, h1, h2, decl_backD hinv x h3 hxn, h4⟩
           | retv v => simpa [Post] using hpost
           | brk =>
             simp only [Post] at hpost ⊢
@@ -544,7 +307,7 @@ theorem cS_ok (lib : Placed p B) (fok : FnsOK p ck B dA fa fns) :
               subst hpc1
               obtain ⟨st', r2, hp2⟩ := (contK m1 hi1 km1).2 hprem
               exact (r2.exec (h2 st' (by refine post_conv ?_ st' (hp2.rebase km1); omega))).2
-            have hsb : Safe p B dA ra lp md sb Γ env1 F D o (pc + (cS (cxOf p ck B dA) fa lp Γ pc o b).length) m .norm b := by
+            have hsb : Safe p B dA ra lp md sb fns Γ env1 F D o (pc + (cS (cxOf p ck B dA) fa lp Γ pc o b).length) m .norm b := by
               rcases hs with ⟨hmd, hvd, h, hw⟩ | ⟨hmd, hvd, h1, hst, h2⟩
               · left; simp only [noTry, Bool.and_eq_true] at h
                 exact ⟨hmd, hvd, h.1, hw.imp id (fun hf => ⟨hf.1, fin (fun _ => hf.1) hf.2⟩)⟩
@@ -588,7 +351,7 @@ theorem cS_ok (lib : Placed p B) (fok : FnsOK p ck B dA fa fns) :
         -- inside a `try/stop` body: `j [defeat]; halt` goes to the handler
         rcases hs with ⟨_, hvd, _⟩ | ⟨_, hvd, _⟩
         · obtain ⟨v, rfl⟩ := hvd hv
-          obtain ⟨h1, h2, h3, h4, _, h6⟩ := hinv.dreg dA v rfl
+          obtain ⟨h1, h2, h3, h4, h6⟩ := hinv.dreg dA v rfl
           simp only [cS, hv] at hpl
           have c0 := hpl 0 (by simp); have c1 := hpl 1 (by simp)
           simp only [if_true, List.cons_append, List.nil_append, List.getElem_cons_succ, List.getElem_cons_zero, Nat.add_zero] at c0 c1
@@ -596,7 +359,7 @@ theorem cS_ok (lib : Placed p B) (fok : FnsOK p ck B dA fa fns) :
           rw [h4] at s0
           have s1 := step_halt (m := m) c1
           exact ⟨fun _ hf => absurd (hv.symm.trans hf) (by decide), fun _ => ⟨⟨v, m⟩, Reach.jump_taken (sys := sphinx p) s0 s1,
-            ⟨dA, v, rfl, rfl, hinv, Keep.refl _ _ _⟩⟩⟩
+            ⟨dA, v, rfl, rfl, hinv.toD, (Keep.refl _ _ _).toD⟩⟩⟩
         · rw [hvd] at hv; cases hv
     | defeatIf c k =>
       simp only [wfS, Bool.and_eq_true] at hwf
@@ -632,12 +395,12 @@ theorem cS_ok (lib : Placed p B) (fok : FnsOK p ck B dA fa fns) :
         rw [hv] at hpl1 hpl2 hB hs
         rcases hs with ⟨hmd, hvd, hnt, hwld⟩ | ⟨_, hvd, _⟩
         · obtain ⟨v, rfl⟩ := hvd hv
-          obtain ⟨e1, e2, e3, e4, _, e6⟩ := hinv.dreg dA v rfl
-          have hdw : DWord p dA v m F := ⟨by omega, by omega, by omega, e4, e6⟩
+          obtain ⟨e1, e2, e3, e4, e6⟩ := hinv.dreg dA v rfl
+          have hdw : DWord p dA v m F := ⟨by omega, e2, e3, e4, e6⟩
           have hpost : ∀ m', Keep p.w m m' (F - o) → Post p B ra lp (.stop dA v) Γ env F D o
               (pc + ((cD (cxOf p ck B dA) true Γ pc o c).length + (cS (cxOf p ck B dA) fa lp Γ (pc + (cD (cxOf p ck B dA) true Γ pc o c).length) o k).length))
               m .defeat ⟨v, m'⟩ :=
-            fun m' k' => ⟨dA, v, rfl, rfl, hinv.keep k' ho, (k'.mono (by omega)).kb⟩
+            fun m' k' => ⟨dA, v, rfl, rfl, (hinv.keep k' ho).toD, (k'.mono (by omega)).kb.toD⟩
           cases hev : evalB (256 ^ p.w) (8 * p.w) env c with
           | none =>
             simp only [exec, hev, Option.some.injEq, Prod.mk.injEq] at hex
@@ -714,8 +477,8 @@ theorem cS_ok (lib : Placed p B) (fok : FnsOK p ck B dA fa fns) :
           | cnt => simpa [Post] using h
         -- the branch taken, its code address and the address where it ends
         have hbranch : ∀ (X : S) (pcX nX : Nat), (cS (cxOf p ck B dA) fa lp Γ pcX o X).length = nX →
-            PlacedAt p pcX (cS (cxOf p ck B dA) fa lp Γ pcX o X) → pcX + nX ≤ B → wfS lp.vd (Γ.map Prod.fst) X = true → pkS p.w o X ≤ D →
-            (noTry (.ifb c t e k) = true → noTry X = true) → (youLevel sb (.ifb c t e k) = true → youLevel sb X = true) →
+            PlacedAt p pcX (cS (cxOf p ck B dA) fa lp Γ pcX o X) → pcX + nX ≤ B → wfS fns lp.vd (Γ.map Prod.fst) X = true → pkS p.w o X ≤ D →
+            (noTry (.ifb c t e k) = true → noTry X = true) → (youLevel sb fns (.ifb c t e k) = true → youLevel sb fns X = true) →
             Reach (sphinx p) ⟨pc, m⟩ [] ⟨pcX, m0⟩ →
             (∀ m1, Reach (sphinx p) ⟨pcX + nX, m1⟩ [] ⟨pc + nC + nT + 2 + nE, m1⟩) →
             ∀ (env1 : Env) (tr1 : List Ev) (res1 : Res),
@@ -756,11 +519,11 @@ theorem cS_ok (lib : Placed p B) (fok : FnsOK p ck B dA fa fns) :
                 have km := km0.kb.trans' km1
                 obtain ⟨st', r2, hp2⟩ := (contK m1 hi1 km).2 hprem
                 exact (((gX m1).trans r2).exec (h2 st' (hp2.rebase km))).2
-              have hsX : Safe p B dA ra lp md sb Γ env1 F D o (pcX + nX) m0 .norm X := by
+              have hsX : Safe p B dA ra lp md sb fns Γ env1 F D o (pcX + nX) m0 .norm X := by
                 rcases hs with ⟨hmd, hvd, h, hw⟩ | ⟨hmd, hvd, h1, hst, h2⟩
                 · left; exact ⟨hmd, hvd, hntX (by simpa [cS] using h), hw.imp id (fun hf => ⟨hf.1, fin (fun _ => hf.1) hf.2⟩)⟩
                 · right
-                  have h1y : youLevel sb (.ifb c t e k) = true := h1
+                  have h1y : youLevel sb fns (.ifb c t e k) = true := h1
                   simp only [youLevel, Bool.and_eq_true] at h1
                   exact ⟨hmd, hvd, hylX h1y, fun e => by rw [km0.size]; exact hst e,
                     fin (nd (exec_no_defeat _ _ _ _ _ _ _ _ _ _ _ _ _ h1.2 hk)) h2⟩
@@ -778,7 +541,7 @@ theorem cS_ok (lib : Placed p B) (fok : FnsOK p ck B dA fa fns) :
               exact Concl.pre' r01 km (contK m1 hi1 km) (post_conv rfl)
           · simp only [hn, if_false, Option.pure_def, Option.some.injEq, Prod.mk.injEq] at hex
             obtain ⟨rfl, rfl, rfl⟩ := hex
-            have hsX : Safe p B dA ra lp md sb Γ env1 F D o (pcX + nX) m0 res1 X :=
+            have hsX : Safe p B dA ra lp md sb fns Γ env1 F D o (pcX + nX) m0 res1 X :=
               hs.sub (by intro h; exact hntX (by simpa [cS] using h)) (by intro h; exact hylX h) km0 (convN env1 res1 hn _ _)
             have hxx := ih F D ra hra lp hlp md sb X Γ env pcX o m0 env1 tr1 res1 hplX (by rw [hlenX]; omega) hinv0 hd hwX hpkX ho hb1 hck
               (by rw [hlenX]; exact hsX)
@@ -922,7 +685,7 @@ theorem cS_ok (lib : Placed p B) (fok : FnsOK p ck B dA fa fns) :
                       have := ih F D ra hra lp hlp md sb (.loop c body cont k) Γ env2 pc o m2 env3 tr3 res3 hpl0 hB0 hi2 hd hwf0 hpk0 ho hb3 hck
                         (by rw [etot]; exact hs0.sub' (fun h => h) (fun h => h) km2 (post_conv rfl))
                       rw [etot] at this; exact this
-                    have hsc : ∀ m1, Keep p.w m m1 (md.kb F p.w) → Safe p B dA ra lp md sb Γ env2 F D o (pc + nC + nT + nE) m1 .norm cont := by
+                    have hsc : ∀ m1, Keep p.w m m1 (md.kb F p.w) → Safe p B dA ra lp md sb fns Γ env2 F D o (pc + nC + nT + nE) m1 .norm cont := by
                       intro m1 km1
                       rcases hs0 with ⟨hmd, hvd, h, hw⟩ | ⟨hmd, hvd, h1, hst, h2⟩
                       · left; simp only [noTry, Bool.and_eq_true] at h
@@ -947,7 +710,7 @@ theorem cS_ok (lib : Placed p B) (fok : FnsOK p ck B dA fa fns) :
                         have g := goto_reach lib (pc + nC + nT + nE) pc m2 hplG (by omega)
                         obtain ⟨st', r3, hp3⟩ := (L m2 hi2 km2).2 (nd (exec_no_defeat _ _ _ _ _ _ _ _ _ _ _ _ _ h1' hb3))
                         exact ((g.trans r3).exec (h2 st' (hp3.rebase km2))).2
-                    have hsbd : Safe p B dA ra ⟨pc + nC + nT, pc + nC + nT + nE + 2, lp.vd⟩ md sb Γ env1 F D o (pc + nC + nT) m0 res1 body := by
+                    have hsbd : Safe p B dA ra ⟨pc + nC + nT, pc + nC + nT + nE + 2, lp.vd⟩ md sb fns Γ env1 F D o (pc + nC + nT) m0 res1 body := by
                       rcases hs0 with ⟨hmd, hvd, h, hw⟩ | ⟨hmd, hvd, h1, hst, h2⟩
                       · left; simp only [noTry, Bool.and_eq_true] at h
                         refine ⟨hmd, hvd, h.1.1, hw.imp id (fun hf => ⟨hf.1, fun st1 hp1 => ?_⟩)⟩
@@ -1013,10 +776,10 @@ theorem cS_ok (lib : Placed p B) (fok : FnsOK p ck B dA fa fns) :
                     exact Concl.pre' r02 km2 (L m2 hi2 km2) (post_conv rfl)
                 · simp only [hn2, if_false, Option.pure_def, Option.some.injEq, Prod.mk.injEq] at hex
                   obtain ⟨rfl, rfl, rfl⟩ := hex
-                  have hsc : ∀ m1, Keep p.w m m1 (md.kb F p.w) → Safe p B dA ra lp md sb Γ env2 F D o (pc + nC + nT + nE) m1 res2 cont := fun m1 km1 =>
+                  have hsc : ∀ m1, Keep p.w m m1 (md.kb F p.w) → Safe p B dA ra lp md sb fns Γ env2 F D o (pc + nC + nT + nE) m1 res2 cont := fun m1 km1 =>
                     hs.sub' (by simp only [noTry, Bool.and_eq_true]; exact fun h => h.1.2)
                       (by simp only [youLevel, Bool.and_eq_true]; exact fun h => h.1.2) km1 (convN env2 res2 hn2 _ _)
-                  have hsbd : Safe p B dA ra ⟨pc + nC + nT, pc + nC + nT + nE + 2, lp.vd⟩ md sb Γ env1 F D o (pc + nC + nT) m0 res1 body := by
+                  have hsbd : Safe p B dA ra ⟨pc + nC + nT, pc + nC + nT + nE + 2, lp.vd⟩ md sb fns Γ env1 F D o (pc + nC + nT) m0 res1 body := by
                     rcases hs with ⟨hmd, hvd, h, hw⟩ | ⟨hmd, hvd, h1, hst, h2⟩
                     · left; simp only [noTry, Bool.and_eq_true] at h
                       refine ⟨hmd, hvd, h.1.1, hw.imp id (fun hf => ⟨hf.1, fun st1 hp1 => ?_⟩)⟩
@@ -1074,7 +837,7 @@ theorem cS_ok (lib : Placed p B) (fok : FnsOK p ck B dA fa fns) :
                     fun m1 hi1 km1 => ih F D ra hra lp hlp md sb k Γ env1 (pc + nC + nT + nE + 2) o m1 env3 tr3 res3 hplK (by omega) hi1 hd hwk (by omega) ho hk hck
                       (hs.sub' (by simp only [noTry, Bool.and_eq_true]; exact fun h => h.2)
                         (by simp only [youLevel, Bool.and_eq_true]; exact fun h => h.2) km1 (post_conv rfl))
-                  have hsbd : Safe p B dA ra ⟨pc + nC + nT, pc + nC + nT + nE + 2, lp.vd⟩ md sb Γ env1 F D o (pc + nC + nT) m0 .brk body := by
+                  have hsbd : Safe p B dA ra ⟨pc + nC + nT, pc + nC + nT + nE + 2, lp.vd⟩ md sb fns Γ env1 F D o (pc + nC + nT) m0 .brk body := by
                     rcases hs with ⟨hmd, hvd, h, hw⟩ | ⟨hmd, hvd, h1, hst, h2⟩
                     · left; simp only [noTry, Bool.and_eq_true] at h
                       refine ⟨hmd, hvd, h.1.1, hw.imp id (fun hf => ⟨hf.1, fun st1 hp1 => ?_⟩)⟩
@@ -1111,7 +874,7 @@ theorem cS_ok (lib : Placed p B) (fok : FnsOK p ck B dA fa fns) :
                 obtain ⟨rfl, rfl, rfl⟩ := hex
                 have hnn : res1 ≠ .norm := fun h => hn1 (Or.inl h)
                 have hnc : res1 ≠ .cnt := fun h => hn1 (Or.inr h)
-                have hsb1 : Safe p B dA ra ⟨pc + nC + nT, pc + nC + nT + nE + 2, lp.vd⟩ md sb Γ env1 F D o (pc + nC + nT) m0 res1 body := by
+                have hsb1 : Safe p B dA ra ⟨pc + nC + nT, pc + nC + nT + nE + 2, lp.vd⟩ md sb fns Γ env1 F D o (pc + nC + nT) m0 res1 body := by
                   rcases hs with ⟨hmd, hvd, h, hw⟩ | ⟨hmd, hvd, h1, hst, h2⟩
                   · left; simp only [noTry, Bool.and_eq_true] at h
                     exact ⟨hmd, hvd, h.1.1, hw.imp id (fun hf => ⟨hf.1, fun st1 hp1 => hf.2 st1 (convB env1 res1 hnn hnc hbk _ _ m st1 (hp1.rebase km0.kb))⟩)⟩
@@ -1188,7 +951,7 @@ theorem cS_ok (lib : Placed p B) (fok : FnsOK p ck B dA fa fns) :
             | some rh =>
               obtain ⟨env2, tr2, res2⟩ := rh
               simp only [hh2, Option.bind_some] at hex
-              have hnd2 : res2 ≠ .defeat := exec_no_defeat _ _ _ _ false _ _ _ _ _ _ _ _ (plain_youLevel _ _ hplh) hh2
+              have hnd2 : res2 ≠ .defeat := exec_no_defeat _ _ _ _ false _ _ _ _ _ _ _ _ (plain_youLevel _ _ _ hplh) hh2
               by_cases hn2 : res2 = .norm
               · subst hn2
                 simp only [if_true] at hex
@@ -1199,7 +962,7 @@ theorem cS_ok (lib : Placed p B) (fok : FnsOK p ck B dA fa fns) :
                   simp only [hk, Option.bind_some, Option.pure_def, Option.some.injEq, Prod.mk.injEq] at hex
                   obtain ⟨rfl, rfl, rfl⟩ := hex
                   have hhh := ih F D ra hra lp hlp .plain sb handler Γ env (pc + 1 + nB + 2) o m env2 tr2 .norm hplH (by rw [hlenH]; omega) (hinv.toMd (by intro a v h; cases h)) hd hwh (by omega) ho hh2
-                    trivial (Or.inl ⟨(by intro h; cases h), (by intro h; rw [hvd] at h; cases h), plain_noTry _ hplh, Or.inl HaltW.plain⟩)
+                    trivial (Or.inl ⟨(by intro h; cases h), (by intro h; rw [hvd] at h; cases h), plain_noTry _ _ hplh, Or.inl HaltW.plain⟩)
                   rw [hlenH] at hhh
                   obtain ⟨st2, r2, hp2⟩ := hhh.2 (nd (by decide))
                   have hp2 := hp2.toYou
@@ -1212,7 +975,7 @@ theorem cS_ok (lib : Placed p B) (fok : FnsOK p ck B dA fa fns) :
               · simp only [hn2, if_false, Option.pure_def, Option.some.injEq, Prod.mk.injEq] at hex
                 obtain ⟨rfl, rfl, rfl⟩ := hex
                 have hhh := ih F D ra hra lp hlp .plain sb handler Γ env (pc + 1 + nB + 2) o m env2 tr2 res2 hplH (by rw [hlenH]; omega) (hinv.toMd (by intro a v h; cases h)) hd hwh (by omega) ho hh2
-                  hck (Or.inl ⟨(by intro h; cases h), (by intro h; rw [hvd] at h; cases h), plain_noTry _ hplh, Or.inl HaltW.plain⟩)
+                  hck (Or.inl ⟨(by intro h; cases h), (by intro h; rw [hvd] at h; cases h), plain_noTry _ _ hplh, Or.inl HaltW.plain⟩)
                 simpa using Concl.pre jt (Keep.refl _ _ _) hhh.toYou (convN env2 res2 hn2 _ _)
           · simp only [hdft, if_false] at hex
             have hbb := ih F D ra hra lp hlp .plain sb body Γ env (pc + 1) o m env1 tr1 res1 hplB (by rw [hlenB]; omega) (hinv.toMd (by intro a v h; cases h)) hd hwb (by omega) ho hb1
@@ -1321,11 +1084,17 @@ theorem cS_ok (lib : Placed p B) (fok : FnsOK p ck B dA fa fns) :
           exact Nat.mod_eq_of_lt hvM
     | callS g args k =>
       simp only [wfS, Bool.and_eq_true] at hwf
-      obtain ⟨hba, hwk⟩ := hwf
+      obtain ⟨⟨hba, hwk⟩, hdv⟩ := hwf
       simp only [pkS] at hpk
       simp only [cS] at hpl hB hs ⊢
       obtain ⟨hpl1, hpl2⟩ := hpl.append
       rw [List.length_append] at hB hs ⊢
+      -- a defeat function is only called where defeat calls go through the word `defeat`
+      have hvdT : isDfn fns g = true → lp.vd = true := fun hd => by simpa [hd] using hdv
+      have hdfc : isDfn fns g = true → ∃ v, md = .stop dA v := fun hd => by
+        rcases hs with ⟨_, hvd, _⟩ | ⟨_, hvd, _⟩
+        · exact hvd (hvdT hd)
+        · rw [hvd] at hvdT; exact absurd (hvdT hd) (by decide)
       simp only [exec] at hex
       cases hcw : callWith (256 ^ p.w) (8 * p.w) fns p.w (exec (256 ^ p.w) (8 * p.w) fns p.w f) D o env g args with
       | none => simp [hcw] at hex
@@ -1335,10 +1104,24 @@ theorem cS_ok (lib : Placed p B) (fok : FnsOK p ck B dA fa fns) :
         | some rf =>
           simp only [hcw, Option.some.injEq, Prod.mk.injEq] at hex
           obtain ⟨rfl, rfl, rfl⟩ := hex
-          have hc := hcall g args trc (some rf) rv hpl1 (by omega) hba (by omega) hcw (fun r h => by cases h; exact hck)
-          rcases callWith_fault hcw with h | h <;> subst h
+          have hwldF : isDfn fns g = true → HaltW p md ∨
+              (((some rf : Option Res) = none → ∀ m', Keep p.w m m' (F - o) →
+                  ¬ Halts (sphinx p) ⟨pc + (cCall (cxOf p ck B dA) fa Γ pc o g args).length, m'⟩) ∧
+               (some rf = some .defeat → ∀ st', (∃ a v, md = .stop a v ∧ st'.pc = v ∧ SInvD p md Γ env st'.mem F D o ra ∧
+                  KeepD p.w m st'.mem (md.kb F p.w)) → ¬ Halts (sphinx p) st')) := by
+            intro hd
+            rcases hs with ⟨_, _, _, hwld⟩ | ⟨_, hvd, _⟩
+            · rcases hwld with h | ⟨_, fin⟩
+              · exact Or.inl h
+              · exact Or.inr ⟨fun h => (by cases h), fun h st' hp => by
+                  simp only [Option.some.injEq] at h; subst h; exact fin st' hp⟩
+            · rw [hvd] at hvdT; exact absurd (hvdT hd) (by decide)
+          have hc := hcall g args trc (some rf) rv hpl1 (by omega) hba (by omega) hcw (fun r h => by cases h; exact hck) hdfc hwldF
+          rcases callWith_fault hcw with h | h | ⟨h, hd⟩ <;> subst h
           · obtain ⟨m', r⟩ := hc.1 rfl; exact fault _ _ _ _ m' _ r
           · obtain ⟨m', r⟩ := hc.2.1 rfl; exact faultO _ _ _ _ m' _ r
+          · obtain ⟨st', r, hp⟩ := hc.2.2.2 rfl
+            exact ⟨fun _ hf => absurd ((hvdT hd).symm.trans hf) (by decide), fun _ => ⟨st', r, hp⟩⟩
         | none =>
           simp only [hcw] at hex
           cases hk : exec (256 ^ p.w) (8 * p.w) fns p.w f D o env k with
@@ -1347,15 +1130,31 @@ theorem cS_ok (lib : Placed p B) (fok : FnsOK p ck B dA fa fns) :
             obtain ⟨envk, trk, resk⟩ := rk
             simp only [hk, Option.bind_eq_bind, Option.bind_some, Option.pure_def, Option.some.injEq, Prod.mk.injEq] at hex
             obtain ⟨rfl, rfl, rfl⟩ := hex
+            -- the rest of the list, from any state in which the call can return
+            have hkkOf : ∀ m1, Keep p.w m m1 (F - o) → _ := fun m1 k1 =>
+              ih F D ra hra lp hlp md sb k Γ env _ o m1 envk trk resk hpl2 (by omega)
+                (hinv.keep k1 ho) hd hwk (by omega) ho hk hck
+                (hs.sub (by simp [noTry]) (by simp [youLevel]) (k1.mono (by omega)) (post_conv (by omega)))
+            have hwldN : isDfn fns g = true → HaltW p md ∨
+                (((none : Option Res) = none → ∀ m', Keep p.w m m' (F - o) →
+                    ¬ Halts (sphinx p) ⟨pc + (cCall (cxOf p ck B dA) fa Γ pc o g args).length, m'⟩) ∧
+                 ((none : Option Res) = some .defeat → ∀ st', (∃ a v, md = .stop a v ∧ st'.pc = v ∧ SInvD p md Γ env st'.mem F D o ra ∧
+                    KeepD p.w m st'.mem (md.kb F p.w)) → ¬ Halts (sphinx p) st')) := by
+              intro hd
+              rcases hs with ⟨_, _, _, hwld⟩ | ⟨_, hvd, _⟩
+              · rcases hwld with h | ⟨hv, fin⟩
+                · exact Or.inl h
+                · refine Or.inr ⟨fun _ m' k' => ?_, fun h => (by cases h)⟩
+                  obtain ⟨st', r2, hp2⟩ := (hkkOf m' k').2 (fun _ => hv)
+                  exact (r2.exec (fin st' (post_conv (by omega) st' (hp2.rebase (k'.mono (by omega)).kb)))).2
+              · rw [hvd] at hvdT; exact absurd (hvdT hd) (by decide)
             obtain ⟨m1, r1, k1, _⟩ := (hcall g args trc none rv hpl1 (by omega) hba (by omega) hcw
-              (fun r h => by cases h)).2.2 rfl
-            have hkk := ih F D ra hra lp hlp md sb k Γ env _ o m1 envk trk resk hpl2 (by omega)
-              (hinv.keep k1 ho) hd hwk (by omega) ho hk hck
-              (hs.sub (by simp [noTry]) (by simp [youLevel]) (k1.mono (by omega)) (post_conv (by omega)))
-            exact Concl.pre r1 (k1.mono (by omega)) hkk (post_conv (by omega))
+              (fun r h => by cases h) hdfc hwldN).2.2.1 rfl
+            exact Concl.pre r1 (k1.mono (by omega)) (hkkOf m1 k1) (post_conv (by omega))
     | declCall x g args k =>
       simp only [wfS, Bool.and_eq_true, Bool.not_eq_true'] at hwf
-      obtain ⟨⟨hba, hxn⟩, hwk⟩ := hwf
+      obtain ⟨⟨⟨hba, hxn⟩, hwk⟩, hnd⟩ := hwf
+      have hndf : ∀ {P : Prop}, isDfn fns g = true → P := fun h => by rw [hnd] at h; cases h
       simp only [pkS] at hpk
       simp only [cS] at hpl hB hs ⊢
       obtain ⟨hpl1, hpl2⟩ := hpl.append
@@ -1369,10 +1168,11 @@ theorem cS_ok (lib : Placed p B) (fok : FnsOK p ck B dA fa fns) :
         | some rf =>
           simp only [hcw, Option.some.injEq, Prod.mk.injEq] at hex
           obtain ⟨rfl, rfl, rfl⟩ := hex
-          have hc := hcall g args trc (some rf) rv hpl1 (by omega) hba (by omega) hcw (fun r h => by cases h; exact hck)
-          rcases callWith_fault hcw with h | h <;> subst h
-          · obtain ⟨m', r⟩ := hc.1 rfl; exact fault _ _ _ _ m' _ r
-          · obtain ⟨m', r⟩ := hc.2.1 rfl; exact faultO _ _ _ _ m' _ r
+          have hc := hcall g args trc (some rf) rv hpl1 (by omega) hba (by omega) hcw (fun r h => by cases h; exact hck) hndf hndf
+          rcases callWith_fault hcw with h | h | ⟨h, hd⟩
+          · subst h; obtain ⟨m', r⟩ := hc.1 rfl; exact fault _ _ _ _ m' _ r
+          · subst h; obtain ⟨m', r⟩ := hc.2.1 rfl; exact faultO _ _ _ _ m' _ r
+          · exact hndf hd
         | none =>
           cases rv with
           | none => simp [hcw] at hex
@@ -1385,7 +1185,7 @@ theorem cS_ok (lib : Placed p B) (fok : FnsOK p ck B dA fa fns) :
               simp only [hk, Option.bind_eq_bind, Option.bind_some, Option.pure_def, Option.some.injEq, Prod.mk.injEq] at hex
               obtain ⟨rfl, rfl, rfl⟩ := hex
               obtain ⟨m1, r1, k1, hv1⟩ := (hcall g args trc none (some v) hpl1 (by omega) hba (by omega) hcw
-                (fun r h => by cases h)).2.2 rfl
+                (fun r h => by cases h) hndf hndf).2.2.1 rfl
               obtain ⟨hinv1, hd1⟩ := decl_inv hinv hd x v k1 (hv1 v rfl) hxn ho
               have conv : ∀ (e1 e2 : Nat), e1 = e2 → ∀ st', Post p B ra lp md ((x, o + p.w) :: Γ) envk F D (o + p.w) e1 m resk st' →
                   Post p B ra lp md Γ envk F D o e2 m resk st' := by
@@ -1401,7 +1201,7 @@ theorem cS_ok (lib : Placed p B) (fok : FnsOK p ck B dA fa fns) :
                 | defeat =>
                   simp only [Post] at hpost ⊢
                   obtain ⟨a, v, h1, h2, h3, h4⟩ := hpost
-                  exact ⟨a, v, h1, h2, decl_back hinv x h3 hxn, h4⟩
+                  exact ⟨a, v, h1, h2, decl_backD hinv x h3 hxn, h4⟩
                 | retv v => simpa [Post] using hpost
                 | brk =>
                   simp only [Post] at hpost ⊢
@@ -1414,8 +1214,9 @@ theorem cS_ok (lib : Placed p B) (fok : FnsOK p ck B dA fa fns) :
                 (hs.sub (by simp [noTry]) (by simp [youLevel]) (k1.mono (by omega)) (conv _ _ (by omega)))
               exact Concl.pre r1 (k1.mono (by omega)) hkk (conv _ _ (by omega))
     | assignCall x g args k =>
-      simp only [wfS, Bool.and_eq_true] at hwf
-      obtain ⟨⟨hxin, hba⟩, hwk⟩ := hwf
+      simp only [wfS, Bool.and_eq_true, Bool.not_eq_true'] at hwf
+      obtain ⟨⟨⟨hxin, hba⟩, hwk⟩, hnd⟩ := hwf
+      have hndf : ∀ {P : Prop}, isDfn fns g = true → P := fun h => by rw [hnd] at h; cases h
       simp only [pkS] at hpk
       have hcode : cS (cxOf p ck B dA) fa lp Γ pc o (.assignCall x g args k)
           = ((cCall (cxOf p ck B dA) fa Γ pc o g args ++
@@ -1436,10 +1237,11 @@ theorem cS_ok (lib : Placed p B) (fok : FnsOK p ck B dA fa fns) :
         | some rf =>
           simp only [hcw, Option.some.injEq, Prod.mk.injEq] at hex
           obtain ⟨rfl, rfl, rfl⟩ := hex
-          have hc := hcall g args trc (some rf) rv hpl1 (by omega) hba (by omega) hcw (fun r h => by cases h; exact hck)
-          rcases callWith_fault hcw with h | h <;> subst h
-          · obtain ⟨m', r⟩ := hc.1 rfl; exact fault _ _ _ _ m' _ r
-          · obtain ⟨m', r⟩ := hc.2.1 rfl; exact faultO _ _ _ _ m' _ r
+          have hc := hcall g args trc (some rf) rv hpl1 (by omega) hba (by omega) hcw (fun r h => by cases h; exact hck) hndf hndf
+          rcases callWith_fault hcw with h | h | ⟨h, hd⟩
+          · subst h; obtain ⟨m', r⟩ := hc.1 rfl; exact fault _ _ _ _ m' _ r
+          · subst h; obtain ⟨m', r⟩ := hc.2.1 rfl; exact faultO _ _ _ _ m' _ r
+          · exact hndf hd
         | none =>
           cases rv with
           | none => simp [hcw] at hex
@@ -1452,7 +1254,7 @@ theorem cS_ok (lib : Placed p B) (fok : FnsOK p ck B dA fa fns) :
               simp only [hk, Option.bind_eq_bind, Option.bind_some, Option.pure_def, Option.some.injEq, Prod.mk.injEq] at hex
               obtain ⟨rfl, rfl, rfl⟩ := hex
               obtain ⟨m1, r1, k1, hv1⟩ := (hcall g args trc none (some v) hpl1 (by omega) hba (by omega) hcw
-                (fun r h => by cases h)).2.2 rfl
+                (fun r h => by cases h) hndf hndf).2.2.1 rfl
               have hv := hv1 v rfl
               have hoW : o + p.w ≤ D := by unfold pkCall at hpk; omega
               have hinv1 := hinv.keep k1 ho
